@@ -90,7 +90,7 @@ Definition lit_class (a : lit) : Z :=
 (* interval bounds: TyParam::Value z, or the TyParam::App succ / pred of the open-interval sugar *)
 Inductive bound := BVal (l : lit) | BSucc (z : Z) | BPred (z : Z).
 
-(* what try_cmp compares after eval_app (const_func.rs succ_func / pred_func); pred(0) is excluded by [wf] *)
+(* what try_cmp compares after eval_app (const_func.rs succ_func / pred_func) *)
 Definition bound_lit (b : bound) : lit :=
   match b with BVal l => l | BSucc z => LInt (z + 1) | BPred z => LInt (z - 1) end.
 
@@ -191,12 +191,17 @@ Fixpoint ty_eqb (a b : ty) {struct a} : bool :=
   | TMono x, TMono y | TPoly x, TPoly y => x =? y
   | TRef x p, TRef y q => ty_eqb x y && rpred_eqb p q
   | TOr l1, TOr l2 | TAnd l1, TAnd l2 =>
-    Nat.eqb (length l1) (length l2) &&
+    (* linear_eq of the two sets (an And is collected into a Set first): mutual inclusion *)
     (fix all (l : list ty) : bool :=
        match l with
        | [] => true
        | x :: t => (fix ex (m : list ty) : bool := match m with [] => false | y :: m' => ty_eqb x y || ex m' end) l2 && all t
-       end) l1
+       end) l1 &&
+    (fix all2 (m : list ty) : bool :=
+       match m with
+       | [] => true
+       | y :: m' => (fix ex2 (l : list ty) : bool := match l with [] => false | x :: t => ty_eqb x y || ex2 t end) l1 && all2 m'
+       end) l2
   | TNot x, TNot y => ty_eqb x y
   | TList x n, TList y m => ty_eqb x y && oz_eqb n m
   | TMono c, TRef _ p | TRef _ p, TMono c => (c =? id_NoneType) && is_none_enum p
@@ -341,12 +346,21 @@ Section Structural.
   (* rec l r = supertype_of(l, r) with less fuel *)
   Variable rec : ty -> ty -> option bool.
 
-  (* (Refinement(l), Refinement(r)): the class of l (or of what it refines) must be above the class of r, then the
-     possible_tps shortcut (fires only for a predicate that is literally True, where is_super_pred_of is true as
-     well) and is_super_pred_of *)
+  (* (Refinement(l), Refinement(r)).  When the class of l is not above the class of r but what it refines is
+     (Nat == {I: Int | I >= 0}, Bool), l is rewritten to a refinement of that class whose predicate is the conjunction
+     `refined.pred & l.pred` and the arm is entered again.  Then the possible_tps shortcut (fires only for a predicate
+     that is literally True, where is_super_pred_of is true as well) and is_super_pred_of.  On the normal forms
+     is_super_pred_of(q & p, r) == is_super_pred_of(q, r) && is_super_pred_of(p, r) for q the predicate of Nat or Bool:
+     against an Equal / Or of Equal every conjunct is tested ((And(l, r), rhs), (lhs, Or)); against an interval the
+     (And, And) arm first reduces comparable conjuncts to the strongest one, then matches >= with >=, <= with <=. *)
   Definition ref_ref (lb : ty) (lp : rpred) (rb : ty) (rp : rpred) : option bool :=
-    andM (orM (rec lb rb) (fun _ => rec (fst (into_refinement lb)) rb))
-         (fun _ => Some (is_super_pred lp rp)).
+    match rec lb rb with
+    | None => None
+    | Some true => Some (is_super_pred lp rp)
+    | Some false =>
+      let (b, q) := into_refinement lb in
+      andM (rec b rb) (fun _ => Some (is_super_pred q rp && is_super_pred lp rp))
+    end.
 
   Definition structural (l r : ty) : option bool :=
     (* the two rules tried first: T :> (A and B) if T :> A or T :> B; (A or B) :> T if A :> T or B :> T *)
@@ -369,8 +383,11 @@ Section Structural.
     | TRef lb lp, TMono _ =>
       if is_natbool r then let (b, p) := into_refinement r in ref_ref lb lp b p
       else if pred_can_be_false lp then Some false else rec lb r
-    | TOr ls, TRef _ _ => anyM (fun o => rec o r) ls
     | TAnd ls, TRef _ _ => allM (fun a => rec a r) ls
+    (* (l, Refinement(r)) for a union: its members were tried by the first rule; the derefine step is skipped *)
+    | TOr _, TRef rb rp =>
+      if is_none_enum rp then rec l (TMono id_NoneType)
+      else orM (rec l rb) (fun _ => andM (negM (rec rb l)) (fun _ => Some false))
     | _, TRef rb rp =>
       if is_none_enum rp then rec l (TMono id_NoneType)
       else orM (rec l rb) (fun _ =>
